@@ -90,8 +90,8 @@ theorem create_makes_parents (fs : Fs) (dir a : Bytes) (fault : Option Nat)
 /-- Directory::create makes all missing parents: when every component of the path is a proper name and at
     every prefix there is nothing yet or a real directory (`Clear`), Directory::create (no injected fault)
     returns true and the directory exists afterwards — together with all its parents (`create_makes_parents`). -/
-theorem create_succeeds (fs : Fs) (dir : Bytes) (hch : chunks dir ≠ [])
-    (hclear : Clear fs (start0 dir) (chunks dir)) :
+theorem create_succeeds (fs : Fs) (dir : Bytes) (hch : kchunks dir ≠ [])
+    (hclear : Clear fs (start0 dir) (kchunks dir)) :
     (dirCreateTop fs dir none).2.1 = true ∧ dirExists (dirCreateTop fs dir none).1 dir = true := by
   have h : (dirCreateTop fs dir none).2.1 = true := by
     unfold dirCreateTop
@@ -181,7 +181,7 @@ theorem unlink_keeps_wellformed (fs : Fs) (dir : Bytes) (recursive : Bool) (hwf 
     links and directory subtrees), File::copy (with faults), File sessions — names are names, no path is
     stored twice, every parent is a directory, and the working directory is a directory. -/
 theorem wf_run (ops : List FsOp) : WF (fsRun initFs ops) ∧ (fsRun initFs ops).get cwd = some .dir := by
-  have h0 : Inv initFs := ⟨⟨by unfold NamesOk IsName; decide, by unfold NoDupKeys; decide, by unfold ParentsOk; decide⟩,
+  have h0 : Inv initFs := ⟨⟨by unfold NamesOk KName; decide, by unfold NoDupKeys; decide, by unfold ParentsOk; decide⟩,
     by decide⟩
   exact fsRun_inv ops initFs h0
 
@@ -262,7 +262,7 @@ def exWorld : Fs :=
     ([[115], [97], [98], [103]], .file [2]), ([[115], [97], [108]], .link [47, 111, 47, 111, 100])]⟩
 
 example : WF exWorld :=
-  ⟨by unfold NamesOk IsName; decide, by unfold NoDupKeys; decide, by unfold ParentsOk; decide⟩
+  ⟨by unfold NamesOk KName; decide, by unfold NoDupKeys; decide, by unfold ParentsOk; decide⟩
 example : PlainParent exWorld [97] [[115], [97]] :=
   ⟨by decide, [], [97], by decide, trivial, by decide, by decide, by decide⟩
 example : (dirUnlinkTop exWorld [97] true).2 = true := by decide
@@ -275,10 +275,10 @@ example : resolve exWorld [97, 47, 102] false = .found [[115], [97], [102]] (.fi
 example : (fileCopy ⟨[([[115]], .dir), ([[115], [102]], .file [1, 2])]⟩ [102] [103] true .half).2.1 = false := by decide
 example : (fileCopy ⟨[([[115]], .dir), ([[115], [102]], .file [1, 2])]⟩ [102] [103] true .none).2.1 = true := by decide
 example : (dirCreateTop ⟨[([[115]], .dir)]⟩ [97, 47, 98] none).2.1 = true := by decide
-example : Clear ⟨[([[115]], .dir)]⟩ (start0 [97, 47, 98]) (chunks [97, 47, 98]) := by
+example : Clear ⟨[([[115]], .dir)]⟩ (start0 [97, 47, 98]) (kchunks [97, 47, 98]) := by
   show Clear _ [[115]] [[97], [98]]
   exact ⟨by decide, by decide, Or.inl (by decide), by decide, by decide, Or.inl (by decide), trivial⟩
 example : (dirCreateTop ⟨[([[115]], .dir), ([[115], [97]], .file [1])]⟩ [97] none).2.1 = false := by decide
-example : Ancestor [97] [97, 47, 98] := Ancestor.parent (Ancestor.self _) (by decide : splitLast isSep [97, 47, 98] = some ([97], 47, [98])) (by decide)
+example : Ancestor [97] [97, 47, 98] := Ancestor.parent (Ancestor.self _) (by decide : splitLast isSlash [97, 47, 98] = some ([97], 47, [98])) (by decide)
 
 end Nstd.Path
